@@ -337,3 +337,17 @@ def SplitPartialFail(xs: list[int], fail_on: int = -1):
     i2 = workflow.add(Node(x=i1.out, tag=4), name="i2")
     i3 = workflow.add(Node(x=i2.out, tag=5), name="i3")
     return d.out, i3.out
+
+
+@python.define
+def Journal(x: int, tag: int = 0) -> int:
+    """body that is sensitive to leftovers in its working directory: appends a line to journal.txt and returns the line count"""
+    import vf.rec as R
+    R.rec("Flaky", x, tag)
+    with open("journal.txt", "a") as f:
+        f.write("run %d\n" % x)
+    if R.FLAGS.get("on_body"):
+        R.FLAGS["on_body"]()
+    if R.FLAGS.get("fail"):
+        raise ValueError("Journal failed")
+    return len(open("journal.txt").read().splitlines())
